@@ -25,11 +25,11 @@ var axChecker = "the purpose-built analyser (bipcheck) implements the rules of D
 var Properties = []Property{
 	{ID: "C01", Title: "Mnemonic encoding conforms to BIP39", Level: "proof",
 		Rules:   []string{"ANCHOR", "G1a", "G4", "T1", "T2", "T2c", "T5w", "T5d", "T6", "L1", "E1enc"},
-		Floors:  map[string]int{"T1.constants": 10, "T5.words": 20480, "T2.contexts": 50, "L1.contexts": 50, "G.gates": 3},
+		Floors:  map[string]int{"T1.constants": 10, "T5.words": 20480, "T2.contexts": 50, "L1.contexts": 50, "G1.gate": 1},
 		Explain: "Abstract interpretation of NewMnemonicByEntropy and NewMnemonic over a bit-layout domain: in each of the 5 sizes x 10 languages (both entry points) the value returned is strings.Join(a, sep) where a has 3*len/4 elements, each written exactly once, a[p] = list_K[S<11(W-1-p):+11>] with S = checksum bits (top ENT/32 bits of SHA-256(entropy)[0]) below the entropy bits, list_K the canonical list of language K (digest-checked literal, never written), sep U+3000 for Japanese and U+0020 otherwise. The entropy bits are a symbol, so the result holds for all 2^ENT inputs; the loop is summarised by recurrence R1 (X' = X >> 11), not unrolled.",
 		Trusted: []string{axSHA, axBig, axJoin, axTool, axChecker, "BIP39 parameter table and the ten list digests held in the checker"}},
 	{ID: "C02", Title: "Every valid mnemonic validates", Level: "proof",
-		Rules:   []string{"ANCHOR", "L1", "L1n", "T6", "T6n", "T6v", "T5w", "T3", "G1a", "G2a", "G3a", "L2w", "L2", "L3", "S2a", "S3", "T2", "T2n", "G4", "G4n", "E1enc", "E1val", "F1"},
+		Rules:   []string{"ANCHOR", "L1", "L1n", "T6", "T6n", "T6v", "T5w", "T3", "G1a", "G2a", "G3a", "L2w", "L2", "L3", "L3x", "S2a", "S3", "T2", "T2n", "G4", "G4n", "E1enc", "E1val", "F1"},
 		Floors:  map[string]int{"T3.maps": 10, "L2.contexts": 50, "L1.contexts": 50},
 		Explain: "Composition of discharged premises: the encoder emits word p = list_K[S<11(W-1-p):+11>] (L1); the separator survives NFKD and is what the validator splits on, words are NFKD-stable and contain no separator (T5,T6); the lookup map is the inverse of the same list (T3); W is accepted (G3); the validator rebuilds acc = I[0]..I[W-1] MSB first, hashes exactly ENT/8 bytes Fixed(acc<CS:>, L) (L2w, L2) and returns nil on the equal edge of Cmp(SHA256(..)<top CS bits>, acc<0:CS>) (L3, S2); substituting I[p] := S<11(W-1-p):+11> makes both sides the same bits; IsMnemonicValid is CheckMnemonic == nil (S3).",
 		Trusted: []string{axSHA, axBig, axJoin, axNFKD, axOnce, axTool, axChecker}},
@@ -49,8 +49,8 @@ var Properties = []Property{
 		Explain: "L1 shows the W windows S<11(W-1-p):+11> partition the ENT+CS bits in position order, so every entropy bit occurs in exactly one emitted index; T5 shows index -> word is injective (2048 pairwise distinct words per list) and no word contains a separator, so the sentence determines the indices and hence the entropy.",
 		Trusted: []string{axSHA, axBig, axJoin, axTool, axChecker}},
 	{ID: "C06", Title: "NewMnemonic is fail-closed and uses exactly the source's bytes", Level: "proof",
-		Rules:   []string{"ANCHOR", "F3", "F3c", "F3d", "F3e", "G2a", "G2r", "G4n", "G4nx", "L1n", "T2n", "T2nc", "T6n", "E1enc", "E1src"},
-		Floors:  map[string]int{"G.gates": 3},
+		Rules:   []string{"ANCHOR", "F3", "F3c", "F3d", "F3e", "G2a", "G2s", "G2r", "G4n", "G4nx", "L1n", "T2n", "T2nc", "T6n", "E1enc", "E1src"},
+		Floors:  map[string]int{"G2.gate": 1},
 		Explain: "The source is read by io.ReadFull into a whole make([]byte, 4n/3) buffer; the read error is tested alone, the failure edge returns (\"\", non-nil) and the encoder is dominated by the success edge; between read and encoder nothing writes the buffer, and the encoder's inputs are exactly the bytes read (layout symbol E of the read). Fragmentation and failure points are quantified inside the io.ReadFull contract.",
 		Trusted: []string{"io.ReadFull(r, b) returns nil iff it filled b completely, however r fragments its reads", axBig, axSHA, axTool, axChecker}},
 	{ID: "C07", Title: "Default randomness is the OS CSPRNG", Level: "proof",
@@ -64,8 +64,8 @@ var Properties = []Property{
 		Explain: "All 10 x 2048 words are read from the syntax tree as constants: non-empty, pairwise distinct, free of White_Space and controls, each equal to its own NFKD image, SHA-256 of the list equal to the frozen digest; each list variable is initialiser-only (never written after its declaration, not even from init()); the encoder selects list K for language K and the validator's map K is built as the inverse of that same variable.",
 		Trusted: []string{"list digests frozen in the checker (English = published bip-0039/english.txt digest; the other nine = pinned commit)", axNFKD, axTool, axChecker}},
 	{ID: "C09", Title: "Only the five sizes; sentinel errors otherwise", Level: "proof",
-		Rules:   []string{"ANCHOR", "G1", "G1a", "G1e", "G2", "G2a", "G2e", "G2r", "S1", "G4", "G4x", "G4n", "G4nx", "T5w"},
-		Floors:  map[string]int{"G.gates": 3, "G.accepted": 15, "S1.sentinels": 3},
+		Rules:   []string{"ANCHOR", "G1", "G1a", "G1e", "G2", "G2a", "G2s", "G2e", "G2r", "S1", "G4", "G4x", "G4n", "G4nx", "T5w"},
+		Floors:  map[string]int{"G1.gate": 1, "G2.gate": 1, "G1.accepted": 5, "G2.accepted": 5, "S1.sentinels": 3},
 		Explain: "Exact reach-set analysis over the full int range: the success exits of NewMnemonicByEntropy / NewMnemonic are reached with exactly {16,20,24,28,32} / {12,15,18,21,24}; every other value reaches only exits returning (\"\", ErrEntropyLen / ErrWordLen); the source is read only with accepted counts; success returns a join of >= 12 non-empty words and nil.",
 		Trusted: []string{axTool, axChecker}},
 	{ID: "C10", Title: "Validation invariant under Unicode-equivalent spellings", Level: "proof",
